@@ -201,9 +201,7 @@ def r_star(names, md):
 def r_rename(names, md):
     # any coincidence among the four names of the two pairs makes the fold order matter
     v = [names[s].lower() for s in ("zqt1", "zqt2", "zqt3", "zqt4")]
-    if any(bool(v[i] == v[k]) for i in range(4) for k in range(i + 1, 4)):
-        return "C11-multi-pair-rename-depends-on-hash-order"
-    return None
+    return None      # repaired in /repo (pairs are folded in statement order now): nothing is absorbed
 
 
 TEMPLATES = {
